@@ -31,6 +31,7 @@ type A38 [38]byte
 type item struct {
 	helper string // name of the read helper (signature)
 	desc   string
+	empty  bool // the value occupies zero bytes in the stream
 	write  func(w io.WriteSeeker) error
 	read   func(r io.ReadSeeker) (string, error) // "" = value equal, else a description of the difference
 }
@@ -280,7 +281,7 @@ var streamFamilies = []streamFamily{
 	{"Read", func(s *simrt.Sim) *item { return genScalarItem(s, "Read") }},
 	{"ReadBytes", func(s *simrt.Sim) *item {
 		b := bytesPayload(s, 3)
-		return &item{helper: "ReadBytes", desc: fmt.Sprintf("%d bytes", len(b)),
+		return &item{helper: "ReadBytes", desc: fmt.Sprintf("%d bytes", len(b)), empty: len(b) == 0,
 			write: func(w io.WriteSeeker) error { return stream.WriteBytes(w, b) },
 			read: func(r io.ReadSeeker) (string, error) {
 				got, err := stream.ReadBytes(r, len(b))
@@ -344,7 +345,9 @@ var streamFamilies = []streamFamily{
 // written by Write[T] (inner 0/1) or WriteBytesWithSize (inner 2).
 func collectionItem(s *simrt.Sim, peek bool) *item {
 	lt := s.Choose(4)
-	inner := s.Choose(3)
+	// elements are read with Read[T] or, rarely, ReadBytesWithSize (whose single-Read defect has its own
+	// signatures under the ReadBytesWithSize family; here it would only multiply them)
+	inner := s.Choose(2)
 	cnt := s.Choose(5)
 	var elems [][]byte
 	var nums []uint64
@@ -479,10 +482,13 @@ func streamBody(s *simrt.Sim) {
 		}
 		var diff string
 		var err error
+		atEOF := (sr != nil && sr.remaining() == 0) || (br != nil && br.Len() == 0)
 		panicked, pv := hx.Try(func() { diff, err = it.read(r) })
 		fault := "nofault"
 		if sr != nil && sr.itemFault != "" {
 			fault = sr.itemFault
+		} else if it.empty && atEOF {
+			fault = "nofault:zero-length-at-eof"
 		}
 		switch {
 		case panicked:
